@@ -111,7 +111,7 @@ def uniqP (xs : List GoVal) : Res Cause (List GoVal) :=
   if xs.any hasPtr then .unmodelled "uniq: pointer identity" else .ok (uniqF xs)
 
 theorem collectP_uniq (xs : List GoVal) : ∀ seen : List String,
-    collectP uniqStep seen xs = if xs.any hasPtr then .unmodelled "uniq: pointer identity" else .ok (uniqOn MapOrder.canonEnc seen xs) := by
+    collectP uniqStep seen xs = if xs.any hasPtr then .unmodelled "uniq: pointer identity" else .ok (uniqOn ArrF.uniqKey seen xs) := by
   induction xs with
   | nil => intro seen; rfl
   | cons x xs ih =>
@@ -121,11 +121,11 @@ theorem collectP_uniq (xs : List GoVal) : ∀ seen : List String,
     · simp [hp, Res.bind]
     · have hp' : hasPtr x = false := by simpa using hp
       simp only [hp', Bool.false_eq_true, if_false, Bool.false_or]
-      by_cases hc : seen.contains (MapOrder.canonEnc x) = true
+      by_cases hc : seen.contains (ArrF.uniqKey x) = true
       · simp only [hc, if_true, Res.bind, ih seen, uniqOn]
         cases xs.any hasPtr <;> simp
-      · have hc' : seen.contains (MapOrder.canonEnc x) = false := by simpa using hc
-        simp only [hc', Bool.false_eq_true, if_false, Res.bind, ih (MapOrder.canonEnc x :: seen), uniqOn]
+      · have hc' : seen.contains (ArrF.uniqKey x) = false := by simpa using hc
+        simp only [hc', Bool.false_eq_true, if_false, Res.bind, ih (ArrF.uniqKey x :: seen), uniqOn]
         cases xs.any hasPtr <;> simp
 
 theorem uniqH_refines {st : Store} {a : Slice} (hw : Slice.wf st a) :
@@ -412,7 +412,7 @@ theorem collectP_join (xs : List GoVal) :
       cases sprintNonNil xs <;> rfl
     | false =>
       simp only [Bool.false_eq_true, if_false]
-      cases sprint x with
+      cases sprintR x with
       | ok b =>
         simp only [Res.bind, ih]
         cases sprintNonNil xs <;> rfl
